@@ -399,6 +399,19 @@ Definition HTInew_dd_block_prog : P :=
 (** the hazard of that clean-up: a block that is reachable from the list has been freed *)
 Definition nb_dangling (s : frec) : bool := nb_published s && nb_freed s.
 
+(** Hopen's branch for a file that is already open read-only and is now opened with write access (round 4): the
+    file record -- shared with the other file ids -- must keep a stream whatever fails.  The order of the two steps
+    is regenerated from the source. *)
+Definition Hopen_reopen_prog : P :=
+  Seq (Call "HIsync" HIsync_prog)
+      (if fact_Hopen_reopen_opens_new_stream_before_closing_old
+       then Seq (Io DOpen id_st)                                      (* new stream first; failure: nothing changed *)
+           (Seq (Io DClose (fun s => set_open (set_pos s 0 OpUnknown) true))   (* old stream gone either way: install the new one *)
+                (Upd (fun s => set_open (set_pos s 0 OpUnknown) true)))
+       else Seq (Io DClose (fun s => set_open s false))
+           (Seq (Upd (fun s => set_open s false))
+           (Seq (Io DOpen id_st) (Upd (fun s => set_open (set_pos s 0 OpUnknown) true))))).
+
 (** a fault plan as the harness issues it: call k fails (single), or call k and every later one (sticky) *)
 Definition plan (k : nat) (sticky : bool) (horizon : nat) : oracle :=
   repeat false k ++ (if sticky then repeat true horizon else [true]).
